@@ -46,6 +46,8 @@ pub fn get_or_create_resource_node(
                     DEFAULT_MAX_RESOURCE_AMOUNT
                 )
             }
+            #[cfg(feature = "verif_hooks")]
+            crate::verif::sync::sync_point(1);
             RESOURCE_NODE_MAP.write().unwrap().insert(
                 res_name.clone(),
                 Arc::new(ResourceNode::new(res_name.clone(), *resource_type)),
